@@ -59,9 +59,11 @@ func isOneOf(s string, reasons []string) bool {
 	return false
 }
 
-// DefaultBlocked are the wait reasons that mean "parked until someone else acts".
+// DefaultBlocked are the wait reasons that mean "parked until someone else acts". "semacquire" is
+// deliberately NOT listed: a goroutine about to start a GC cycle shows it while the goroutine dump
+// itself holds the world semaphore, so it can be observed twice without the goroutine being blocked.
 var DefaultBlocked = []string{"sync.Cond.Wait", "chan receive", "chan send", "select", "sync.Mutex.Lock",
-	"sync.RWMutex.Lock", "sync.RWMutex.RLock", "semacquire", "sync.WaitGroup.Wait", "select (no cases)",
+	"sync.RWMutex.Lock", "sync.RWMutex.RLock", "sync.WaitGroup.Wait", "select (no cases)",
 	"chan receive (nil chan)"}
 
 // WaitDoneOrParked polls until done is set (returns "done"), the goroutine is parked for one of the
